@@ -180,7 +180,12 @@ class CallMixin:
             pts_ = d_.get('params', [])
             ps = [(pn_[0] if pn_ else 'recv', rt_)] + [(pn_[i + 1] if i + 1 < len(pn_) else 'arg%d' % i, t) for i, t in enumerate(pts_)]
         vars = {}
-        for (n, t), a in zip(ps, args): vars[n] = (a, t)
+        for (n, t), a in zip(ps, args):
+            if z3.is_expr(a) and z3.is_app_of(a, z3.Z3_OP_ITE) and a.sort() == I:
+                # an argument that is a conditional term (e.g. the payload of a comma-ok type assertion) is named: quantifier patterns of
+                # the callee's contract may mention the parameter, and a pattern may not contain if-then-else
+                c_ = fint('arg.' + n); st.assume(c_ == a); a = c_
+            vars[n] = (a, t)
         if bind is not None:
             for (n, t), a in zip(fvs, bind):
                 if isinstance(a, Loc) and a.arrlen is None:
